@@ -406,7 +406,7 @@ def _asym3d():
 
 def tasks(tier, seed):
     ts = []
-    cones = cone_set(tier, seed=seed) + [("asym3d", _asym3d())]
+    cones = cone_set(tier, seed=seed)
     for cone, W in cones:
         m = W.shape[1]
         N = 2 if (tier == "quick" or m == 3) else 3
